@@ -1014,6 +1014,35 @@ func (in *Interp) stmt(fr *Frame, s ast.Stmt) (ctl, Value) {
 		if v.Tag != nil {
 			tag = in.eval(sub, v.Tag)
 		}
+		if tag == nil {
+			// a switch without a tag evaluates its case expressions in order and stops at the first that holds (a later
+			// expression may only be meaningful when the earlier ones are false: res.At(1) after res.Len() != 2)
+			var def *ast.CaseClause
+			for _, c := range v.Body.List {
+				cc := c.(*ast.CaseClause)
+				if cc.List == nil {
+					def = cc
+					continue
+				}
+				for _, e := range cc.List {
+					if in.truth(in.eval(sub, e)) {
+						c2, r := in.block(&Frame{vars: map[types.Object]*Value{}, pkg: fr.pkg, up: sub}, cc.Body)
+						if c2 == cBreak {
+							c2 = cNone
+						}
+						return c2, r
+					}
+				}
+			}
+			if def != nil {
+				c2, r := in.block(&Frame{vars: map[types.Object]*Value{}, pkg: fr.pkg, up: sub}, def.Body)
+				if c2 == cBreak {
+					c2 = cNone
+				}
+				return c2, r
+			}
+			return cNone, nil
+		}
 		var def *ast.CaseClause
 		var flat []*ast.CaseClause
 		var conds []Value
